@@ -4,7 +4,26 @@ import json, os, subprocess, sys
 
 HERE = os.path.dirname(os.path.dirname(os.path.abspath(__file__)))
 
+COMPILER_NOTE = ("Partial: no theorem states that the compiler model is correct on all programs (it is not: see the open findings); "
+                 "what is kernel-checked is the soundness (and for C02 completeness) of the validators for ALL inputs of an instance, and universal "
+                 "lemmas on X/CX/MCX gate lists. The per-instance validator runs are computed by the compiled model driver, not by the kernel. "
+                 "Trusted: Lean kernel + standard axioms, the correspondence harness (canonicalisation: controls of MCX sorted, runs of adjacent "
+                 "same-target CX and of adjacent X sorted), ancilla choices logged from the real run by wrapping QCircuitEnhanced.get_free_ancilla, "
+                 "sympy's structural equality as the ExpQMap key. Hybrid Q.* gates are not modelled.")
+
 CHECKS = {
+    "C02": dict(
+        text="Faithful Lean model of InternalCompiler/ExpQMap/QCircuitEnhanced reproduces the real compiler's gate list, qubit map and ancilla sets exactly on every generated compilation (suite programs, random bool/Qint programs through the real front-end with both optimizer profiles, random definition lists; uncompute on and off); each instance is decided for ALL 2^n inputs by a validator proved sound and complete in Lean (validate_sound/validate_complete) and cross-checked by an independent Python simulator; universal theorems: remove_identities preserves the classical action, X/CX/MCX gates on distinct wires are involutions, reverse replay undoes a gate list. Failures of the unchanged compiler are attributed to open findings only when the model reproduces the gate list and a listed defect-site event occurred.",
+        note=COMPILER_NOTE, design="3/C02", technique="Lean 4 proof of validator soundness + universal gate-list lemmas; exact model/code correspondence; per-instance exhaustive validation",
+    ),
+    "C03": dict(
+        text="Same model and correspondence as C02 (uncompute=True): each compiled instance is checked on all inputs for unchanged argument qubits and zero scratch qubits by validateClean (validateClean_sound); universal theorems: a qubit no gate targets is unchanged, reverse replay restores every qubit.",
+        note=COMPILER_NOTE, design="3/C03", technique="Lean 4 proof of validator soundness + replay lemmas; exact model/code correspondence; per-instance exhaustive validation",
+    ),
+    "C06": dict(
+        text="Universal theorem xor_oracle_of_clean: any X/CX/MCX circuit that is correct and clean from y=0 and never uses its output qubit as a control is an xor-oracle for both y (flip-commutation lemma by induction over the gate list); validateXor_sound for the per-instance validator over all (x, y); same exact correspondence as C02 on single-bool programs.",
+        note=COMPILER_NOTE, design="3/C06", technique="Lean 4 proof (flip commutation, validator soundness); exact model/code correspondence; per-instance exhaustive validation over (x, y)",
+    ),
     "C09": dict(
         text="Lean 4 theorems over all widths (Qint w, Qchar, Qfixed I/F) and all nested types: pattern and value round trips, const = runtime encoding, one-hot amplitude index, interpret_as_qtype inverts concatenated encodings; side conditions discharged on the type tables regenerated from qint.py/qfixed.py/qchar.py on every run; model tied to the code by exhaustive comparison over every shipped type x every bit pattern (w<=12) plus sampled Qint16 and nested types.",
         note="Trusted: Lean kernel (axioms propext, Classical.choice, Quot.sound only, audited per run), the ast-based table extractor, the correspondence harness, CPython float arithmetic being exact on dyadic rationals < 2^11. The theorems are about QV/Model/Types.lean, not the Python text.",
